@@ -119,7 +119,7 @@ func (h *hangError) Error() string { return h.msg }
 // flock (on a file this very process holds) or waiting for the driver's mutex
 // for 30 s cannot progress any more.
 func guarded(label string, f func() error) error {
-	err, hung, slow := fix.Watchdog(20*time.Second, []string{"syscall.Flock+updog/driver", "bbolt.flock+updog/driver", "sync.(*RWMutex)+updog/driver", "sync.(*Mutex)+updog/driver"}, f)
+	err, hung, slow := fix.Watchdog(20*time.Second, []string{"syscall.Flock+updog/driver", "bbolt.flock+updog/driver", "sync.(*RWMutex)+updog/driver", "sync.(*Mutex)+updog/driver", "[chan receive+updog/driver.(*updogDriver)", "[select+updog/driver.(*updogDriver)", "[semacquire+updog/driver.(*updogDriver)", "[sync.Cond.Wait+updog/driver.(*updogDriver)"}, f)
 	if hung != "" {
 		return &hangError{fmt.Sprintf("%s does not complete: goroutine stuck:\n%s", label, hung)}
 	}
@@ -636,10 +636,10 @@ func runChurn(t interface{ Fatalf(string, ...any) }, c *ChurnCase) {
 
 func drawChurn(t *rapid.T) *ChurnCase {
 	return &ChurnCase{
-		Data:       *gen.Explicit(t, gen.DataOpts{MaxRows: 6, IdentCols: true}),
-		Opt:        rapid.IntRange(0, len(optStrings)-1).Draw(t, "opt"),
-		Goroutines: rapid.IntRange(2, 12).Draw(t, "goroutines"),
-		PerG:       rapid.IntRange(100, 500).Draw(t, "perg"),
+		Data:       gen.DataSpec{Explicit: append([]model.Row{{"a": "1"}}, gen.Explicit(t, gen.DataOpts{MaxRows: 6, IdentCols: true}).Rows()...)},
+		Opt:        rapid.SampledFrom([]int{0, 0, 0, 1, 2, 3}).Draw(t, "opt"),
+		Goroutines: rapid.SampledFrom([]int{2, 2, 3, 4, 4, 8, 12}).Draw(t, "goroutines"),
+		PerG:       rapid.IntRange(300, 1500).Draw(t, "perg"),
 		Handles:    rapid.IntRange(0, 4).Draw(t, "handles"),
 		MaxOpen:    rapid.SampledFrom([]int{0, 0, 2, 5}).Draw(t, "maxopen"),
 	}
